@@ -3,10 +3,44 @@
 (* real to_wbem_uri / from_wbem_uri (see Fails in WbemUri).  The code-shaped*)
 (* PrintU / Parse (variant VEnv, selected by the harness after probing the  *)
 (* tree) is followed for drift only: printed text and parser outcome.       *)
-EXTENDS WbemUri, Json
+(* A trace can also be a HISTORY (htext / hparse / hmutate / hprint events, *)
+(* see WbemUriHeap: requirement HFails with the abstract heap as state);    *)
+(* there the code-shaped process heap (cells, cache switch of VEnv) is      *)
+(* followed for drift: printed text, parser outcome, heap snapshot.         *)
+EXTENDS WbemUriHeap, Json
 VARIABLES tid, l, verdict, ts, ti, drifted
 
+HImpl0 == [ist |-> IState0, texts |-> <<>>]
+HImplCmp(i, e) ==
+  CASE e.kind = "htext" ->
+         << F("print." \o e.fmt,
+              e.printed # "ok" \/ e.text = PrintU(VEnv, e.p, e.fmt)),
+            [i EXCEPT !.texts = Append(@, [text |-> e.text,
+                                           kind |-> e.p.kind])] >>
+    [] e.kind = "hprint" ->
+         << F("print." \o e.fmt,
+              e.printed # "ok" \/ e.h \notin DOMAIN i.ist.roots \/
+              e.text = PrintU(VEnv, Deref(i.ist.cells, i.ist.roots[e.h]),
+                              e.fmt)),
+            [i EXCEPT !.texts = Append(@, [text |-> e.text,
+                                           kind |-> e.pk])] >>
+    [] e.kind = "hparse" ->
+         LET src == i.texts[e.t]
+             r == ParseU(VEnv, src.kind, src.text)
+         IN IF (e.outcome = "path") # r.ok THEN << {"parse.printed"}, i >>
+            ELSE IF ~r.ok THEN << {}, i >>
+            ELSE LET ist2 == IParse(VEnv, i.ist, src.kind, src.text)
+                 IN << F("hist.heap", e.heap = Snapshot(ist2)),
+                       [i EXCEPT !.ist = ist2] >>
+    [] e.kind = "hmutate" ->
+         IF ~IMutOk(i.ist, e.h, e.d, e.f) THEN << {"hist.place"}, i >>
+         ELSE LET ist2 == IMutate(i.ist, e.h, e.d, e.f)
+              IN << F("hist.heap", e.heap = Snapshot(ist2)),
+                    [i EXCEPT !.ist = ist2] >>
+    [] OTHER -> << {}, i >>
+
 ImplCmp(i, e) ==
+  IF e.kind \in HistKinds THEN HImplCmp(i, e) ELSE
   << CASE e.kind = "rt" ->
             IF e.printed # "ok" THEN {}
             ELSE LET t == PrintU(VEnv, e.p, e.fmt)
@@ -25,8 +59,8 @@ TraceBatch == JsonDeserialize(IOEnv.TRACE_FILE).traces
 
 TK == INSTANCE TraceKit WITH
         TTraces <- TraceBatch,
-        TInit0 <- InitState, TFails <- Fails, TApply <- Apply,
+        TInit0 <- HInit, TFails <- HFails, TApply <- HApply,
         TInv <- LAMBDA st : TRUE,
-        TImpl0 <- 0, TImplStep <- ImplCmp
+        TImpl0 <- HImpl0, TImplStep <- ImplCmp
 TSpec == TK!TSpec
 =============================================================================
